@@ -7,6 +7,8 @@ CONSTANTS
   StaleTimeout = TRUE
   StaleLists = FALSE
   ThresholdBefore = TRUE
+  ProbeCheckUpdated = TRUE
+  QuotaErrors = FALSE
   InitStates = {"Queued", "Locked"}
   B <- BRestart
   MaxHist = 120
